@@ -1,13 +1,14 @@
 #!/bin/sh
-# builds extract/_build/model.exe from the compiled Coq model (coq/ must be built first)
+# usage: build.sh <name> ; builds extract/_build/<name>.exe from extract/<name>/{Extract.v,driver.ml}
+# and the shared extract/util.ml (coq/ must be built first). Extract.v must extract to "model.ml".
 set -e
 cd "$(dirname "$0")"
-mkdir -p gen _build
-cd gen
-coqc -Q ../../coq SQV ../Extract.v > ../_build/extract.log 2>&1 || { cat ../_build/extract.log; exit 1; }
-rm -f ../Extract.vo ../Extract.glob ../.Extract.aux ../Extract.vok ../Extract.vos
-cd ..
-cp gen/model.ml gen/model.mli util.ml driver.ml _build/
-cd _build
-ocamlfind ocamlopt -O2 -w -a -package str model.mli model.ml util.ml driver.ml -o model.exe 2>/dev/null \
-  || ocamlfind ocamlopt -w -a model.mli model.ml util.ml driver.ml -o model.exe
+NAME="${1:-main}"
+W="_build/$NAME"
+rm -rf "$W"
+mkdir -p "$W"
+( cd "$W" && coqc -Q ../../../coq SQV "../../$NAME/Extract.v" > extract.log 2>&1 ) || { cat "$W/extract.log"; exit 1; }
+rm -f "$NAME"/Extract.vo "$NAME"/Extract.glob "$NAME"/.Extract.aux "$NAME"/Extract.vok "$NAME"/Extract.vos
+cp util.ml "$NAME/driver.ml" "$W/"
+( cd "$W" && ocamlfind ocamlopt -O2 -w -a model.mli model.ml util.ml driver.ml -o "../$NAME.exe" 2>/dev/null \
+  || ocamlfind ocamlopt -w -a model.mli model.ml util.ml driver.ml -o "../$NAME.exe" )
